@@ -46,6 +46,7 @@ class Knobs:
         self.p_crates = 0.3
         # application-state inputs: singletons that the *user* builds (prebuilt types, configuration entries)
         self.p_state_inputs = 0.5
+        self.p_input_each = 0.45
         # framework primitives (RequestHead, ConnectionInfo, AllowedMethods, RawPathParams, RawIncomingBody) as extra inputs
         self.p_prims = 0.5
         # primary constructors registered in the nested blueprint that contains all their users, instead of the root
@@ -58,6 +59,12 @@ class Knobs:
         self.p_imports = 0.5
         # request-time components whose error type is `pavex::Error` itself
         self.p_pavex_errors = 0.6
+        # the generic constructor is fallible, with an error type that shares its type parameter, and a generic error handler
+        self.p_generic_errors = 0.5
+        # an overriding constructor registered in two sibling blueprints (one module imported by both, or two plain registrations)
+        self.p_sibling_regs = 0.5
+        # constructible types that are not nominal: `(T3, u8)` tuples and `[T3; 1]` arrays around the instrumented struct
+        self.p_shapes = 0.0  # raised once the repair of the request-scoped tuple panic is in the repo
         self.__dict__.update(kw)
         if self.flavour == "observers":
             self.n_obs = (3, 6)
@@ -206,7 +213,7 @@ def gen_inclass(rng, knobs=None):
     with_inputs = rng.random() < kn.p_state_inputs
     for i, t in enumerate(names):
         ty = spec["types"][t]
-        if with_inputs and ty["lc"] == "singleton" and rng.random() < 0.45:
+        if with_inputs and ty["lc"] == "singleton" and rng.random() < getattr(kn, "p_input_each", 0.45):
             c = make_state_input(rng, spec, "C%d" % i, t)
         else:
             c = make_ctor("C%d" % i, t, names[:i], ty["lc"])
@@ -511,6 +518,8 @@ def gen_inclass(rng, knobs=None):
         add_generics(rng, spec, kn)
     if kn.domains:
         domainize(rng, spec)
+    if rng.random() < getattr(kn, "p_sibling_regs", 0):
+        share_override_with_sibling(rng, spec)
     if kn.avoid_known:
         repair_known(spec)
     if rng.random() < kn.p_scoped:
@@ -527,6 +536,8 @@ def gen_inclass(rng, knobs=None):
         methodize(rng, spec)
     if rng.random() < kn.p_imports:
         importize(rng, spec)
+    if rng.random() < getattr(kn, "p_shapes", 0):
+        shapeize(rng, spec)
     return spec
 
 
@@ -580,6 +591,44 @@ def importize(rng, spec):
             for it in rng.sample(pool, rng.randint(2, len(pool))):
                 it.append({"import": mod})
                 (spec["ctors"] if it[0] == "ctor" else spec["ehs"])[it[1]]["module_import"] = mod
+
+
+def share_override_with_sibling(rng, spec):
+    """An overriding constructor of a nested blueprint is registered in a sibling blueprint as well: the two siblings then
+    designate the same (non-inherited) registration, their parent and the other siblings still designate the inherited one.
+    Written either as one module imported by both blueprints (`bp.import(from![crate::sib_0])` twice) or as two plain
+    registrations of the same constructor."""
+    import copy
+    n = 0
+    for bp, _d in list(_bp_nodes(spec["bp"])):
+        kids = [it for it in bp["items"] if it[0] == "nest"]
+        if len(kids) < 2:
+            continue
+        for a in kids:
+            ovr = [it for it in a[2]["items"] if it[0] == "ctor" and len(it) == 2 and it[1].count("_") == 1 and it[1][1:].replace("_", "").isdigit()]
+            if not ovr or rng.random() < 0.3:
+                continue
+            it = rng.choice(ovr)
+            c = spec["ctors"][it[1]]
+            if c.get("generic_param") or c.get("input") or spec["types"][c["out"]]["lc"] == "singleton":
+                continue
+            others = [b for b in kids if b is not a and not any(x[0] == "ctor" and spec["ctors"][x[1]]["out"] == c["out"] for x in b[2]["items"])]
+            if not others:
+                continue
+            b = rng.choice(others)
+            backup = copy.deepcopy(spec)
+            if not (c.get("module") or c.get("method")) and rng.random() < 0.6:
+                mod = "sib_%d" % n
+                it.append({"import": mod})
+                c["module_import"] = mod
+            b[2]["items"].insert(rng.randint(0, len(b[2]["items"])), list(it) if len(it) == 2 else [it[0], it[1], dict(it[2])])
+            if not certificate(spec)[0]:
+                spec.clear()
+                spec.update(backup)
+                return
+            n += 1
+            if n >= 2:
+                return
 
 
 def make_state_input(rng, spec, cid, t):
@@ -712,6 +761,46 @@ def crateize(rng, spec):
                    "errors": errors, "ctors": ctors}
 
 
+def shapeize(rng, spec):
+    """Representation pass: one to three constructible types stop being nominal. Wherever the application says `T3` it now
+    says `(T3, u8)` (a tuple) or `[T3; 1]` (an array): the instrumented struct is still inside, so identities, provenance and
+    clone events are observed as before, `Copy`/`Clone`/`Send` are inherited structurally, and nothing changes in what the
+    application means. What changes is the kind of type the compiler has to resolve, compare, name fields after, decide
+    `Copy`/`Clone` for and spell in the generated code. Only plain local types that no representation needs a name for are
+    eligible (no generic wrappers or their arguments, no borrowing types, no method receivers / `impl` targets, no
+    application-state inputs, nothing that lives in the dependency crate)."""
+    dep = spec.get("dep") or {"types": [], "errors": [], "ctors": []}
+    busy = set(dep["types"])
+    texts = []
+    for c in spec["ctors"].values():
+        texts.append(c["out"])
+        texts += [t for (t, _m) in c.get("ins") or []]
+        if c.get("input"):
+            busy.add(c["out"])
+        if c.get("method"):
+            busy.add(c["method"].get("on"))
+        if c.get("generic_param"):
+            busy.add(base_of_name(c["out"]))
+    for group in ("handlers", "mws", "fallbacks", "obs", "ehs"):
+        for x in spec[group].values():
+            texts += [t for (t, _m) in x.get("ins") or []]
+            if x.get("method") and x["method"].get("on"):
+                busy.add(x["method"]["on"])
+    for t in texts:
+        if "<" in t:
+            busy.add(base_of_name(t))
+            busy.add(t[t.index("<") + 1:-1])
+    cands = [t for t, tt in spec["types"].items()
+             if t not in busy and not tt.get("generic") and not tt.get("lt") and "<" not in t]
+    rng.shuffle(cands)
+    for t in cands[:rng.choice([1, 1, 2, 3])]:
+        spec["types"][t]["shape"] = rng.choice(["tuple", "tuple", "array"])
+
+
+def base_of_name(t):
+    return t.split("<")[0]
+
+
 def methodize(rng, spec, p=0.5):
     """Representation pass: some components become inherent methods inside `#[pavex::methods] impl T { .. }` blocks —
     static ones on the type they build (returning `Self` or the type's name), or methods whose receiver
@@ -748,7 +837,7 @@ def methodize(rng, spec, p=0.5):
             if rng.random() < p and receiver_of(x) and x.get("path_params") is None:
                 x["method"] = {"on": x["ins"][0][0], "receiver": True, "bare_attr": rng.random() < 0.5}
     for ehid, eh in spec["ehs"].items():
-        if eh["err"] != "pavex" and eh["err"] not in dep["errors"] and rng.random() < p:
+        if eh["err"] != "pavex" and eh["err"] not in dep["errors"] and eh["err"] not in (spec.get("generic_errors") or {}) and rng.random() < p:
             eh["method"] = {"bare_attr": rng.random() < 0.5}
 
 
@@ -772,6 +861,14 @@ def add_generics(rng, spec, kn):
     spec["types"][g] = {"lc": lc, "disc": "shared", "generic": True, "clone": rng.random() < 0.3}
     spec["ctors"]["CG0"] = {"out": g + "<T>", "ins": [["T", "ref"]], "lc": lc, "generic_param": "T"}
     spec["bp"]["items"].insert(0, ["ctor", "CG0"])
+    if rng.random() < getattr(kn, "p_generic_errors", 0):
+        # the generic constructor is fallible and its error type has the same type parameter:
+        # `fn cg<T>(t: &T) -> Result<G<T>, GE<T>>`, handled by the generic `fn eh<T>(e: &GE<T>) -> Response`
+        spec["errors"].append("GE0")
+        spec["generic_errors"] = {"GE0": "T"}
+        spec["ctors"]["CG0"]["fallible"] = "GE0"
+        spec["ehs"]["EH_GE0"] = {"err": "GE0", "ins": [], "status": 560}
+        spec["bp"]["items"].insert(0, ["eh", "EH_GE0"])
     args = rng.sample(concrete, min(len(concrete), rng.choice([1, 2, 2, 3])))
     users = [(k, xid) for k in ("handlers", "mws", "fallbacks") for xid in spec[k]]
     if kn.flavour == "observers":
@@ -878,16 +975,29 @@ GUARD_POOLS = [
 ]
 
 
-def domainize(rng, spec):
+def domainize(rng, spec, many=None):
     """Domain guards are all-or-nothing: wrap every run of consecutive routes / nested blueprints of the root blueprint
     into a `bp.domain(<guard>).nest(..)`; middlewares, observers and the root fallback stay where they are."""
     pool = list(rng.choice(GUARD_POOLS))
     rng.shuffle(pool)
+    # many guards (two-digit indices in the generated router): one guard per route / nested blueprint of the root
+    many = many if many is not None else rng.random() < 0.35
+    if many:
+        pool = [("n%02d.big.com" % i) if i % 3 else ("{t}.m%02d.big.com" % i) for i in range(14)]
+        rng.shuffle(pool)
+        # enough top-level routes for 11-14 guards: input-free handlers appended to the root blueprint
+        have = sum(1 for it in spec["bp"]["items"] if it[0] in ("route", "nest"))
+        for k in range(max(0, rng.randint(11, 14) - have)):
+            hid = "HX%d" % k
+            spec["handlers"][hid] = {"ins": [], "path": "/x%d" % k, "methods": [rng.choice(["GET", "POST"])], "path_params": None}
+            spec["bp"]["items"].append(["route", hid])
     out = []
     run = None
     nests = []
     for it in spec["bp"]["items"]:
         if it[0] in ("route", "nest"):
+            if many and len(nests) < len(pool):
+                run = None
             if run is None:
                 if len(nests) < len(pool):
                     run = []
@@ -965,7 +1075,7 @@ def repair_known(spec):
                 n_child += 1
                 child = it[2]
                 for cit in list(child["items"]):
-                    if cit[0] == "ctor" and "_" in cit[1] and spec["ctors"][cit[1]]["lc"] == "request":
+                    if cit[0] == "ctor" and "_" in cit[1] and cit[1] in spec["ctors"] and spec["ctors"][cit[1]]["lc"] == "request":
                         t = spec["ctors"][cit[1]]["out"].split("<")[0]
                         from e2e.patterns import _components_under, uses_type
                         uses = lambda x: uses_type(spec, m, x, t)
@@ -973,7 +1083,9 @@ def repair_known(spec):
                         inherited_wrap = any(x in spec["mws"] and spec["mws"][x]["kind"] == "wrap" for x in mws_here)
                         needed_below = bool(users) and any(uses(x) for x in _components_under(child) if x in m.reg)
                         if len(users) >= 2 or any(x in spec["obs"] for x in users) or inherited_wrap or needed_below:
-                            child["items"].remove(cit)
+                            # (the same constructor may be registered in a sibling blueprint too: every registration goes)
+                            for other, _d in _bp_nodes(spec["bp"]):
+                                other["items"][:] = [x for x in other["items"] if not (x[0] == "ctor" and x[1] == cit[1])]
                             del spec["ctors"][cit[1]]
                             m.__init__(spec)
                 walk(child, child_scope, mws_here)
@@ -1103,7 +1215,8 @@ def certificate(spec):
 def shape_signature(spec):
     """Canonical, name-erased shape used to count distinct cases."""
     import hashlib
-    nodes = sorted((t["lc"], t.get("disc", ""), bool(spec["ctors"].get("C%s" % n[1:], {}).get("fallible")), spec["ctors"].get("C%s" % n[1:], {}).get("input") or "")
+    nodes = sorted((t["lc"], t.get("disc", ""), bool(spec["ctors"].get("C%s" % n[1:], {}).get("fallible")), spec["ctors"].get("C%s" % n[1:], {}).get("input") or "",
+                    t.get("shape") or "")
                    for n, t in spec["types"].items())
     def lc_of(t):
         return spec["types"].get(t.split("<")[0], {}).get("lc", "generic")
